@@ -1191,7 +1191,7 @@ def run_bounded(ctx: Ctx) -> Report:
     with warnings.catch_warnings():
         warnings.simplefilter("ignore")
         # ---- Graph ------------------------------------------------------------------
-        plans = [("wide", 2), ("deep", 3), ("core", 4)] if not ctx.thorough else [("wide", 3), ("deep", 4), ("core", 5)]
+        plans = [("wide", 2), ("deep", 3), ("core", 4)] if not ctx.thorough else [("wide", 2), ("deep", 4), ("core", 5)]
         for uname, depth in plans:
             t0 = time.time()
             U = universe(uname)
@@ -1250,6 +1250,8 @@ def run_bounded(ctx: Ctx) -> Report:
                                    samples=[{"kind": "ctor", "ctor": ["HRG", None]}], exhaustive=True))
         own = run_ownership_histories()
     rep.extra["ownership_histories"] = own
+    rep.extra["transitions"] = sum(b.cases for b in rep.bounded if "histories" in b.function)
+    rep.extra["states"] = sum(b.distinct_nontrivial for b in rep.bounded if "histories" in b.function)
     rep.extra["failure_counts_by_key"] = dict(sorted(counts.items()))
     rep.extra["wall_s_by_part"] = timing
     rep.assumptions.append("ownership precondition: a Graph handed to a rule is not mutated through an outside alias "
